@@ -100,3 +100,24 @@ func inPkgs(pkgs ...string) func(*ssa.Function) bool {
 		return false
 	}
 }
+
+// sideSymmetryRule registers one obligation per sibling pair of side-mirrored assignments in the given files.
+func sideSymmetryRule(c *core.Check, r *core.Rule, pkg string, files map[string]bool, floor int) {
+	p := c.Prog
+	pairs := p.SidePairs(pkg, func(f string) bool { return files == nil || files[f] })
+	seen := map[string]int{}
+	for _, sp := range pairs {
+		key := pkg + "." + sp.Func + " | " + sp.TextA
+		if len(key) > 140 {
+			key = key[:140] + "…"
+		}
+		seen[key]++
+		if seen[key] > 1 {
+			key = fmt.Sprintf("%s #%d", key, seen[key])
+		}
+		r.Cond(sp.Consistent, key, p.Pos(sp.A.Pos()), "mirrored by: "+sp.TextB, "its sibling mirrors some side names and not others: "+sp.TextB)
+	}
+	if len(pairs) < floor {
+		r.Unknown("sibling pairs in "+pkg, "-", fmt.Sprintf("%d mirrored assignment pairs found, %d on the tree this rule was written for", len(pairs), floor))
+	}
+}
